@@ -27,6 +27,7 @@ FAMILIES = {
     "inherit": "harness.check_inherit",
     "template": "harness.check_template",
     "outline": "harness.check_outline",
+    "dump": "harness.check_dump",
 }
 # property -> families whose judges print verdicts for it
 PROPS = {
@@ -48,7 +49,7 @@ PROPS = {
     "C17": ["batch"],
     "C01": ["formats", "compose"], "C02": ["formats", "compose"],
     # beyond the listed properties (not in MANIFEST.json; evidence goes to build/)
-    "X01": ["inherit"], "X02": ["template"], "X03": ["outline"],
+    "X01": ["inherit"], "X02": ["template"], "X03": ["outline"], "X04": ["dump"],
 }
 EXPLAIN = {}
 
